@@ -33,6 +33,9 @@ type Case struct {
 // decide is the reference reading of the statement's four conditions.
 func decide(key, data []byte) (ref.Envelope, bool) {
 	var e ref.Envelope
+	if len(key) != 256 {
+		return e, false // no session key (the key exchange is still going on): no key id can match it
+	}
 	if len(data) < 24 || !bytes.Equal(data[:8], ref.AuthKeyID(key)) {
 		return e, false
 	}
@@ -242,6 +245,25 @@ func faults(t *rapid.T, b base) (Case, error) {
 		c = Case{Key: b.Key, Data: d, Fault: fmt.Sprintf("right key id + %d garbage bytes", n)}
 		if err := eval(c, true, "garbage"); err != nil {
 			return c, err
+		}
+	}
+	// the receiver has no session key yet (a packet that arrives during the key exchange): whatever the key id says -
+	// the digest of the empty string included - there is nothing it could match
+	for _, nokey := range [][]byte{nil, {}} {
+		for n := 0; n <= len(b.Garbage) && n <= 80; n += 16 {
+			d = append(append([]byte{}, ref.SHA1(nil)[12:20]...), b.Garbage[:n]...)
+			c = Case{Key: nokey, Data: d, Fault: fmt.Sprintf("receiver without a session key: key id of the empty key + %d bytes", n)}
+			if err := eval(c, true, "no-session-key"); err != nil {
+				return c, err
+			}
+		}
+		d = append([]byte{}, pkt...)
+		copy(d[:8], ref.SHA1(nil)[12:20])
+		for _, dd := range [][]byte{d, pkt} {
+			c = Case{Key: nokey, Data: dd, Fault: "receiver without a session key: well-formed packet of another session"}
+			if err := eval(c, true, "no-session-key"); err != nil {
+				return c, err
+			}
 		}
 	}
 	// attacker holding the key: well-sealed plaintext with an inconsistent declared length
